@@ -399,4 +399,11 @@ def build():
         "@cache on add_table: the body runs once per table; IDX is a class invariant kept by lookup_key/init",
     ]
     plan.trusted += ["pyvc AST->SMT translation (cross-checked against CPython)", "z3 5.1.0 (quantified VCs)", "cvc5 1.0.3"]
+    # chunk boundaries: what decides whether a member is read as an archive at all (C17's is_iwa_file: True iff the data is a sequence of
+    # well-formed frames, 3-byte length) and how a framed member is decoded (C05's _decompress_all: one piece per frame, in order)
+    from contracts import C05, C17
+    p17 = C17.build()
+    plan.import_targets(p17, lambda c: c.qual == "iwafile:is_iwa_file")
+    p5 = C05.build()
+    plan.import_targets(p5, lambda c: c.qual == "iwafile:IWACompressedChunk._decompress_all")
     return plan
